@@ -198,6 +198,27 @@ def midi_identical_repeat(rng, sid):
     return Script(sid, ops, {"module": "midi", "family": "identical-repeat"})
 
 
+def midi_cc_pairs(sid, ch):
+    """every ordered pair of routed controllers (plus 121 / 123 as the first), the first at both switch positions and at
+    the ends of the range, the second at three values: a controller whose effect depends on the state left by another
+    one (portamento time ignored while the portamento switch is off, ...) shows here; a pitch bend rides along"""
+    ops = ["midi.new %d" % ch]
+    routed = [1, 7, 71, 74, 5, 65, 64]
+    k = 0
+    for a in routed + [121, 123]:
+        for va in (0, 63, 64, 127):
+            for b in routed:
+                if a == b:
+                    continue
+                for vb in (127, 0, 37):
+                    ops += ["b %d" % (0xB0 | ch), "b %d" % a, "b %d" % va]
+                    if k % 5 == 0:
+                        ops += ["b %d" % (0xE0 | ch), "b %d" % (k % 128), "b %d" % ((k * 7) % 128)]
+                    ops += ["b %d" % (0xB0 | ch), "b %d" % b, "b %d" % vb]
+                    k += 1
+    return Script(sid, ops, {"module": "midi", "family": "cc-pairs"})
+
+
 def midi_scripts(rng, n_struct, n_raw, cc=False):
     res = []
     for i in range(n_struct):
@@ -210,6 +231,7 @@ def midi_scripts(rng, n_struct, n_raw, cc=False):
         res.append(midi_identical_repeat(rng, "midi-ir%d" % i))
     if cc:
         res.append(midi_cc_all("midi-ccall", rng.randrange(16)))
+        res.append(midi_cc_pairs("midi-ccpairs", rng.randrange(16)))
         for c in (1, 7, 71, 74, 5, 65, 64):
             res.append(midi_cc_values("midi-cc%d" % c, rng.randrange(16), c))
         res.append(midi_bend_sweep("midi-bend-coarse", 3, 0, 16384, 37))
